@@ -1538,7 +1538,11 @@ func AggrFunExpr(query *Query, current Map, expr sqlparser.AggrFunc, opts ...Exp
 	}
 	rs, ok := query.singletonExecutions[name]
 	if !ok {
-		slice, err := AggrFuncArgReader(query, map[string]any{"*": query.from}, sqlparser.Exprs{Exprs: expr.GetArgs()})
+		rows := query.from
+		if all, ok := current["*"].([]any); ok {
+			rows = all
+		}
+		slice, err := AggrFuncArgReader(query, map[string]any{"*": rows}, sqlparser.Exprs{Exprs: expr.GetArgs()})
 		if err != nil {
 			return nil, err
 		}
@@ -1704,7 +1708,8 @@ func IsSelectAllAggregate(query *Query) bool {
 func ExecSelect(query *Query, current []any) ([]any, error) {
 	copy := make([]any, 0)
 	if IsSelectAllAggregate(query) {
-		rs, err := SelectExpr(query, nil, &query.selectDefinition)
+		// whole-table aggregates are computed over the rows that passed WHERE
+		rs, err := SelectExpr(query, Map{"*": current}, &query.selectDefinition)
 		if err != nil {
 			return nil, err
 		}
